@@ -37,9 +37,9 @@ impl Property for C08 {
          participants supplies valid-but-foreign material) EVERY (receiver, sender) pair x EVERY fault of the catalogue is injected alone: \
          round one: proof R replaced/shifted, proof z +1/-1/random, proof recomputed for another identifier, proof from the sender's \
          other run, EACH commitment coefficient k=0..t-1 replaced, commitment truncated/extended, another sender's package in this slot, \
-         the sender's package from its other run, contribution filed under the receiver's own / an unknown identifier, missing, surplus; \
+         the sender's package from its other run, contribution filed under the receiver's own / an unknown identifier, missing, surplus, the receiver's own package echoed (added / replacing); \
          round two: share +1/-1/zero/random, share computed for another recipient, share of another sender, share from the sender's \
-         other run, filed under own / unknown identifier, missing, surplus. One evaluation per (transcript, receiver, sender, fault). \
+         other run, filed under own / unknown identifier, missing, surplus, own share echoed. One evaluation per (transcript, receiver, sender, fault). \
          non-trivial = every fault other than 'proof z of the first peer' and 'share of the first peer'; distinct = distinct \
          (suite, n, t, receiver position, sender position, fault) tuples"
             .into()
@@ -77,7 +77,7 @@ impl Property for C08 {
             "r1:proof-R-random", "r1:proof-z+1", "r1:proof-for-other-identifier", "r1:proof-from-other-run", "r1:coefficient-0", "r1:coefficient-top",
             "r1:truncate", "r1:extend", "r1:other-senders-package", "r1:package-from-other-run", "r1:filed-under-own-id", "r1:filed-under-unknown-id",
             "r1:missing", "r1:surplus", "r2:share+1", "r2:share-zero", "r2:share-for-other-recipient", "r2:share-from-other-run",
-            "r2:share-of-other-sender", "r2:filed-under-own-id", "r2:filed-under-unknown-id", "r2:missing", "r2:surplus", "sender=last", "receiver=last",
+            "r2:share-of-other-sender", "r2:filed-under-own-id", "r2:filed-under-unknown-id", "r2:missing", "r2:surplus", "r1:own-package-echoed", "r1:own-package-replaces-sender", "r2:own-share-echoed", "sender=last", "receiver=last",
         ]
         .iter()
         .map(|s| (s.to_string(), m))
@@ -214,6 +214,15 @@ fn check<C: Suite>(case: &Case, ctx: &mut Ctx) -> CheckResult {
                 let mut m = base1.clone();
                 m.insert(unknown, unknown_pkg.clone());
                 faults.push(("r1:surplus".into(), Expect::Part2Structural, m, base2.clone()));
+                // the receiver's own round-one package echoed back to it, next to all n-1 honest ones
+                let mut m = base1.clone();
+                m.insert(*r, a.r1_pkg[r].clone());
+                faults.push(("r1:own-package-echoed".into(), Expect::Part2Structural, m, base2.clone()));
+                // ... and echoed in place of this sender's (n-1 entries, one of them the receiver's own)
+                let mut m = base1.clone();
+                m.remove(s);
+                m.insert(*r, a.r1_pkg[r].clone());
+                faults.push(("r1:own-package-replaces-sender".into(), Expect::Part2Structural, m, base2.clone()));
             }
             // ---- round-two faults
             let sh = base2[s].signing_share().to_scalar();
@@ -247,6 +256,13 @@ fn check<C: Suite>(case: &Case, ctx: &mut Ctx) -> CheckResult {
                 let mut m = base2.clone();
                 m.insert(unknown, round2::Package::new(SigningShare::new(sc_rand::<C>(rng.next()))));
                 faults.push(("r2:surplus".into(), Expect::Part3Structural, base1.clone(), m));
+                // a round-two package filed under the receiver's own identifier next to all honest ones
+                // (the value is what the receiver's own polynomial gives for itself, i.e. a 'plausible' self-share)
+                let mut m = base2.clone();
+                let own_coeffs = a.r1_secret[r].coefficients();
+                let own_self = poly_eval::<C>(&own_coeffs, r.to_scalar());
+                m.insert(*r, round2::Package::new(SigningShare::new(own_self)));
+                faults.push(("r2:own-share-echoed".into(), Expect::Part3Structural, base1.clone(), m));
             }
 
             for (name, expect, r1m, r2m) in faults {
